@@ -19,8 +19,9 @@ class LoopSpec:
     lemmas ...) about the current state, ASSUMED at the loop head and again before the invariant is
     re-established; they are listed in the trusted base."""
 
-    def __init__(self, inv, variant=None, lemmas=None, step_lemma=None, step_body_src=None, havoc_names=()):
+    def __init__(self, inv, variant=None, lemmas=None, step_lemma=None, step_body_src=None, havoc_names=(), body_calls=None):
         self.inv, self.variant, self.lemmas = inv, variant, lemmas
+        self.body_calls = body_calls or {}        # callee qualname -> number of modular calls every pass through the body must make
         self.havoc_names = tuple(havoc_names)      # objects the (abstract) body may modify besides what the syntax shows
         # step_lemma: qualname of a lemma unit proving "one execution of the loop body preserves inv";
         # step_body_src: the exact source text the body must have for that lemma to apply
